@@ -224,9 +224,9 @@ def rand_word(rng, big):
             return w
 
 
-def make_obj(rng, big, names, extern, nfn=None, opts=None, odd_sizes=False, local_calls=True):
-    """one object with functions `names`; calls go to its own functions or to names in `extern`.
-    -> ObjDesc"""
+def make_obj(rng, big, names, extern, nfn=None, opts=None, odd_sizes=False, local_calls=True, graph=None):
+    """one object with functions `names`; calls go to its own functions or to names in `extern`
+    (or exactly to graph[name] when a call graph is given).  -> ObjDesc"""
     fns, text = [], bytearray()
     syms, rels = [], []
     if rng.random() < 0.6:
@@ -248,12 +248,19 @@ def make_obj(rng, big, names, extern, nfn=None, opts=None, odd_sizes=False, loca
         symindex[name] = len(syms) + 1
         syms.append(Sym(name, 0, 0, STB_GLOBAL, STT_FUNC, ".text"))
     for name in names:
-        nwords = rng.choice([1, 1, 2, 2, 3, 4, 6, 10])
         words, calls = [], {}
-        pool = ([n for n in names] if local_calls else []) + list(extern)
-        for k in range(nwords):
-            if pool and rng.random() < 0.35:
-                tgt = rng.choice(pool)
+        if graph is not None:
+            plan = []
+            for tgt in graph.get(name, []):
+                plan += [None] * rng.randrange(0, 3) + [tgt]
+            plan += [None] * rng.randrange(1 if not plan else 0, 3)
+        else:
+            nwords = rng.choice([1, 1, 2, 2, 3, 4, 6, 10])
+            pool = ([n for n in names] if local_calls else []) + list(extern)
+            plan = [rng.choice(pool) if pool and rng.random() < 0.35 else None for _ in range(nwords)]
+        nwords = len(plan)
+        for k, tgt in enumerate(plan):
+            if tgt is not None:
                 words.append(JAL | rng.choice([0, 0, rng.getrandbits(26), 0x01000000, 0x03ffffff]))
                 calls[4 * k] = tgt
             else:
@@ -270,7 +277,7 @@ def make_obj(rng, big, names, extern, nfn=None, opts=None, odd_sizes=False, loca
         text += fn.code(big)
         # what follows a function of odd size is not its own: make it visible
         while len(text) % 4:
-            text.append(0xa5 ^ len(text) & 0xff or 0x5a)
+            text.append(0xa5)
         if rng.random() < 0.3:
             text += bytes([0xee] * 4 * rng.randrange(1, 3))
         s = syms[symindex[name] - 1]
@@ -290,8 +297,10 @@ def tokens_of(src):
     out = []
     for line in src.split("\n"):
         line = line.split(";")[0]
-        for m in re.finditer(r"0x[0-9a-fA-F]+|[0-9]+|[A-Za-z_][A-Za-z0-9_]*", line):
+        for m in re.finditer(r"0x[0-9a-fA-F]+|[0-9]+|[A-Za-z_][A-Za-z0-9_]*:?", line):
             t = m.group(0)
+            if t.endswith(":"):
+                continue            # `name:` is lexed as TOKEN_LABEL, which is never looked up in the imports
             if IDENT.fullmatch(t):
                 out.append(t)
     return out
@@ -417,3 +426,315 @@ if __name__ == "__main__":
         p = os.path.join(os.path.dirname(os.path.dirname(os.path.abspath(__file__))), "lean", "NakenVerif", "Link", "Examples.lean")
         open(p, "w").write(lean_examples())
         print("wrote", p)
+
+
+# ---------------------------------------------------------------------------------------------------
+# Cases
+# ---------------------------------------------------------------------------------------------------
+
+class Case:
+    """kind   : stream name
+       prog   : Program
+       files  : [(file name, bytes)] in command-line order
+       descs  : [[ObjDesc, ...]] per file: the objects whose functions the file offers (members of an archive)
+       expect : 'ok' | 'error' | 'any'  (what the property demands; 'any' = no crash, and a success must be right)
+       why    : reason of an expected error / note"""
+
+    def __init__(self, kind, prog, files, descs, expect="any", why=""):
+        self.kind, self.prog, self.files, self.descs, self.expect, self.why = kind, prog, files, descs, expect, why
+        self.model = True        # False: the source does not assemble by itself, the link model has no answer
+
+    def line(self):
+        return link_line(self.prog, self.files)
+
+
+NAME_POOL = ["f0", "f1", "f2", "f3", "f4", "f5", "f6", "f7", "get_value", "_init", "Helper", "x", "a_b_c", "fn9z",
+             "memcpy_", "L1"]
+
+
+def pick_names(rng, n):
+    pool = list(NAME_POOL)
+    rng.shuffle(pool)
+    out = pool[:n]
+    if rng.random() < 0.08:
+        out[0] = "n" * rng.choice([200, 253, 254])          # longest label Symbols::append takes: 254 characters
+    return out
+
+
+def shaped_graph(rng, names, shape):
+    """call graph {caller: [callees]} over `names` (callees may repeat: the same function called many times)"""
+    g = {n: [] for n in names}
+    k = len(names)
+    if shape == "chain":
+        for i in range(k - 1): g[names[i]].append(names[i + 1])
+    elif shape == "cycle":
+        for i in range(k): g[names[i]].append(names[(i + 1) % k])
+    elif shape == "self":
+        for n in names: g[n].append(n)
+    elif shape == "diamond" and k >= 4:
+        g[names[0]] += [names[1], names[2]]; g[names[1]].append(names[3]); g[names[2]].append(names[3])
+        for n in names[4:]: g[names[3]].append(n)
+    elif shape == "star":
+        for n in names[1:]: g[names[0]].append(n); g[n].append(names[0])
+    elif shape == "mutual" and k >= 2:
+        g[names[0]] += [names[1], names[1]]; g[names[1]] += [names[0], names[0], names[1]]
+    else:
+        for n in names:
+            for _ in range(rng.choice([0, 0, 1, 1, 2, 4])):
+                g[n].append(rng.choice(names))
+    return g
+
+
+def split_objects(rng, big, names, graph, nobj, undefined=(), odd_sizes=False, opts=None):
+    parts = [[] for _ in range(nobj)]
+    for n in names:
+        parts[rng.randrange(nobj)].append(n)
+    out = []
+    for part in parts:
+        sub = {n: list(graph[n]) for n in part}
+        out.append(make_obj(rng, big, part, [], odd_sizes=odd_sizes, graph=sub, opts=opts))
+    return out
+
+
+def make_program(rng, cpu, names, called, extra=None, org=None, tail=None, labels=("main",)):
+    stm = [("org", org if org is not None else rng.choice([0, 0x1000, 0x1000, 0x8000, 0xfff8, 0x10000, 0x0ffffff0,
+                                                            0x10000000, 0x7ffffff0, 0x80000000, 0xbfc00000]))]
+    stm.append(("label", labels[0]))
+    for c in called:
+        stm.append(rng.choice([("jal", c), ("jal", c), ("word", c)]))
+        if rng.random() < 0.5:
+            stm.append(("nop",))
+    for lab in labels[1:]:
+        stm.append(("label", lab))
+        stm.append(("nop",))
+    stm += list(extra or [])
+    stm += list(tail or [])
+    return Program(cpu, stm)
+
+
+def gen_graph_case(rng, kind="graph", archive=False):
+    cpu = rng.choice(["mips32", "mips32", "mips32", "mips", "pic32", "ps2_ee", "n64_rsp"])
+    big = MIPS_CPUS[cpu]
+    names = pick_names(rng, rng.randrange(1, 9))
+    shape = rng.choice(["random", "random", "random", "chain", "cycle", "self", "diamond", "star", "mutual"])
+    graph = shaped_graph(rng, names, shape)
+    undefined = []
+    why = ""
+    if rng.random() < 0.1:                                   # a call to a symbol nothing defines
+        u = "nowhere%d" % rng.randrange(3)
+        graph[rng.choice(names)].append(u)
+        undefined.append(u)
+    nobj = rng.randrange(1, 4)
+    odd = rng.random() < 0.15
+    objs = split_objects(rng, big, names, graph, nobj, odd_sizes=odd)
+    dup = None
+    if rng.random() < 0.12 and names:                        # the same name defined by a second object
+        dup = rng.choice(names)
+        objs.append(make_obj(rng, big, [dup], [], graph={dup: [rng.choice(names)] if rng.random() < 0.5 else []}))
+    called = [rng.choice(names) for _ in range(rng.randrange(0, 5))]
+    extra, tail, labels = [], [], ["main"]
+    r = rng.random()
+    missing_ref = None
+    if r < 0.06:
+        missing_ref = "undefined_fn"
+        extra.append(("jal", missing_ref))
+    elif r < 0.10:
+        labels.append(rng.choice(names))                     # the program defines a label an object defines too
+    r = rng.random()
+    if r < 0.07:
+        tail = [("db", rng.choice([1, 2, 3, 5]))]            # source ends at an address that is not a multiple of 4
+    elif r < 0.14:
+        tail = [("db", rng.choice([1, 2, 3, 5])), ("align",)]
+    elif r < 0.2:
+        tail = [("db", 4)]
+    prog = make_program(rng, cpu, names, called, extra=extra, tail=tail, labels=labels)
+    if rng.random() < 0.08:
+        prog.directive_endian = rng.choice(["big_endian", "little_endian"])
+        if prog.big() != big:                                # objects hold the words in the image's byte order
+            return gen_graph_case(rng, kind, archive)
+    files, descs = pack_files(rng, objs, archive)
+    # what the property demands
+    reach = reference_closure(called + ([missing_ref] if missing_ref else []), objs)
+    expect = "ok"
+    if missing_ref or any(u in reach["unresolved"] for u in undefined) or reach["unresolved"]:
+        expect, why = "error", "unresolved symbol " + ",".join(sorted(reach["unresolved"] | ({missing_ref} if missing_ref else set())))
+    if dup is not None or len(labels) > 1:
+        expect = "any"              # which definition is taken is not fixed by the property
+    _, end, _, _ = prog.layout()
+    if end % 4 and reach["placed"]:
+        expect = "any" if expect == "ok" else expect           # misaligned start: an error or an aligned placement
+    return Case(kind, prog, files, descs, expect, why)
+
+
+def reference_closure(roots, objs):
+    """names reachable from `roots` through the calls of the (first) definitions in `objs`"""
+    defs = {}
+    for o in objs:
+        for f in o.fns:
+            defs.setdefault(f.name, f)
+    placed, todo, unresolved = [], [r for r in roots], set()
+    while todo:
+        n = todo.pop(0)
+        if n in placed:
+            continue
+        if n not in defs:
+            unresolved.add(n)
+            continue
+        placed.append(n)
+        todo += list(defs[n].calls.values())
+    return {"placed": placed, "unresolved": unresolved}
+
+
+def pack_files(rng, objs, archive):
+    """distribute objects over .o files and .a archives -> (files, descs)"""
+    files, descs = [], []
+    i = 0
+    idx = list(range(len(objs)))
+    while idx:
+        if archive and (rng.random() < 0.7 or len(files) == 0):
+            k = rng.randrange(1, len(idx) + 1)
+            group, idx = idx[:k], idx[k:]
+            members, mdesc, index_syms = [], [], {}
+            if rng.random() < 0.3:
+                members.append(("readme.txt", b"this is not an object\n" * rng.randrange(1, 3)))
+            for g in group:
+                name = rng.choice(["m%d.o" % g, "member_with_a_very_long_file_name_%d.o" % g, "x%d.o" % g])
+                index_syms[len(members)] = [f.name for f in objs[g].fns]
+                members.append((name, objs[g].elf() + (b"\0" if rng.random() < 0.4 else b"")))   # odd sizes
+                mdesc.append(objs[g])
+            if rng.random() < 0.2:
+                members.append(("tail.bin", bytes(rng.getrandbits(8) for _ in range(rng.randrange(1, 9)))))
+            data, _ = write_ar(members, symindex=rng.random() < 0.7, index_syms=index_syms,
+                               long_names=rng.random() < 0.8)
+            files.append(("lib%d.a" % i, data))
+            descs.append(mdesc)
+        else:
+            g, idx = idx[0], idx[1:]
+            files.append(("obj%d.o" % i, objs[g].elf()))
+            descs.append([objs[g]])
+        i += 1
+    order = list(range(len(files)))
+    rng.shuffle(order)
+    return [files[k] for k in order], [descs[k] for k in order]
+
+
+# --- corruptions -----------------------------------------------------------------------------------
+
+def corrupt_elf(rng, data):
+    """one structured corruption of a valid object -> (bytes, kind, must_fail)"""
+    b = bytearray(data)
+    e_shoff = struct.unpack_from("<I", b, 32)[0]
+    shentsize, shnum, shstrndx = struct.unpack_from("<HHH", b, 46)
+    kinds = ["class64", "big-endian", "magic", "short-header", "truncate", "shoff", "shnum", "shentsize", "shstrndx",
+             "sec-offset", "sec-size", "sec-name", "sec-type", "sym-name", "sym-value", "sym-size", "sym-shndx",
+             "rel-offset", "rel-info", "flip", "strtab-unterminated", "empty"]
+    kind = rng.choice(kinds)
+    must_fail = False
+    big = [0, 1, 0x7f, 0x80, 0xffff, 0x10000, 0x7fffffff, 0x80000000, 0xfffffff0, 0xffffffff, len(b), len(b) - 1, len(b) + 1]
+
+    def sec(i):
+        return e_shoff + i * shentsize
+
+    def find_sec(typ):
+        for i in range(shnum):
+            if struct.unpack_from("<I", b, sec(i) + 4)[0] == typ:
+                return i
+        return None
+
+    if kind == "class64": b[4] = 2; must_fail = True
+    elif kind == "big-endian": b[5] = 2; must_fail = True
+    elif kind == "magic": b[rng.randrange(4)] ^= 1 << rng.randrange(8); must_fail = True
+    elif kind == "short-header": b = b[:rng.randrange(0, 52)]; must_fail = True
+    elif kind == "empty": b = bytearray(); must_fail = True
+    elif kind == "truncate":
+        cut = rng.choice([52, 53, e_shoff - 1, e_shoff, e_shoff + 1, e_shoff + 39, e_shoff + 40, len(b) - 1, len(b) - 40,
+                          rng.randrange(52, len(b))])
+        b = b[:max(0, min(cut, len(b) - 1))]; must_fail = True        # the section header table is the last thing in the file
+    elif kind == "shoff": struct.pack_into("<I", b, 32, rng.choice(big)); must_fail = False
+    elif kind == "shnum": struct.pack_into("<H", b, 48, rng.choice([0, 1, shnum - 1, shnum + 1, 0xffff]))
+    elif kind == "shentsize": struct.pack_into("<H", b, 46, rng.choice([0, 1, 39, 41, 80, 0xffff]))
+    elif kind == "shstrndx": struct.pack_into("<H", b, 50, rng.choice([0, shnum - 1, shnum, shnum + 1, 0xffff]))
+    elif kind in ("sec-offset", "sec-size", "sec-name", "sec-type"):
+        i = rng.randrange(shnum)
+        off = {"sec-offset": 16, "sec-size": 20, "sec-name": 0, "sec-type": 4}[kind]
+        vals = big if kind != "sec-type" else [0, 1, 2, 3, 4, 8, 9, 11, 0x70000000]
+        struct.pack_into("<I", b, sec(i) + off, rng.choice(vals))
+    elif kind.startswith("sym-") and find_sec(SHT_SYMTAB) is not None:
+        i = find_sec(SHT_SYMTAB)
+        so, ss = struct.unpack_from("<II", b, sec(i) + 16)
+        n = ss // 16
+        if n > 1:
+            e = so + 16 * rng.randrange(1, n)
+            if kind == "sym-name": struct.pack_into("<I", b, e, rng.choice(big))
+            elif kind == "sym-value": struct.pack_into("<I", b, e + 4, rng.choice(big + [4, 8, 12]))
+            elif kind == "sym-size": struct.pack_into("<I", b, e + 8, rng.choice(big + [2, 3, 5, 6, 7]))
+            else: struct.pack_into("<H", b, e + 14, rng.choice([0, 1, 2, 3, 4, 5, 0xfff1, 0xffff]))
+    elif kind.startswith("rel-") and find_sec(SHT_REL) is not None:
+        i = find_sec(SHT_REL)
+        so, ss = struct.unpack_from("<II", b, sec(i) + 16)
+        if ss >= 8:
+            e = so + 8 * rng.randrange(ss // 8)
+            if kind == "rel-offset": struct.pack_into("<I", b, e, rng.choice(big + [0, 4, 8]))
+            else: struct.pack_into("<I", b, e + 4, rng.choice([0x00000004, 0x00000104, 0x7fffff04, 0x80000004, 0xffffff04,
+                                                               0x00ffff04, rng.getrandbits(32)]))
+    elif kind == "strtab-unterminated":
+        for i in range(shnum):
+            if struct.unpack_from("<I", b, sec(i) + 4)[0] == SHT_STRTAB and i != shstrndx:
+                so, ss = struct.unpack_from("<II", b, sec(i) + 16)
+                if ss: b[so + ss - 1] = 0x41
+    else:
+        for _ in range(rng.randrange(1, 4)):
+            if b: b[rng.randrange(len(b))] = rng.choice([0, 1, 0xff, rng.getrandbits(8)])
+    return bytes(b), kind, must_fail
+
+
+def corrupt_ar(rng, data):
+    b = bytearray(data)
+    kind = rng.choice(["signature", "size-nondigit", "size-huge", "size-small", "truncate", "header-cut", "flip", "size-minus"])
+    must_fail = False
+    if kind == "signature": b[rng.randrange(8)] ^= 0x20; must_fail = True
+    elif kind == "truncate": b = b[:rng.randrange(0, len(b))]
+    elif kind == "header-cut": b = b[:8 + rng.randrange(1, 60)]; must_fail = True
+    elif kind == "flip":
+        for _ in range(rng.randrange(1, 4)): b[rng.randrange(len(b))] = rng.getrandbits(8)
+    else:
+        # a member header's size field
+        pos, headers = 8, []
+        while pos + 60 <= len(b):
+            headers.append(pos)
+            try:
+                sz = int(bytes(b[pos + 48:pos + 58]).split(b" ")[0] or b"0")
+            except ValueError:
+                break
+            pos += 60 + sz + (sz & 1)
+        if headers:
+            h = rng.choice(headers)
+            new = {"size-nondigit": rng.choice([b"12x", b"-60", b"0x10", b"\x00\x00", b"1e3"]),
+                   "size-huge": rng.choice([b"9999999999", b"2147483647", b"4294967295", str(len(b)).encode()]),
+                   "size-small": rng.choice([b"0", b"1", b"3", b"51", b"59"]),
+                   "size-minus": rng.choice([b"-1", b"-60", b"-61", b"-240"])}[kind]
+            b[h + 48:h + 58] = new.ljust(10)[:10]
+            must_fail = kind in ("size-nondigit", "size-minus")
+    return bytes(b), kind, must_fail
+
+
+def gen_corrupt_case(rng):
+    base = gen_graph_case(rng, "corrupt", archive=rng.random() < 0.4)
+    k = rng.randrange(len(base.files))
+    fname, data = base.files[k]
+    if fname.endswith(".a"):
+        if rng.random() < 0.5:
+            new, kind, must = corrupt_ar(rng, data)
+        else:
+            # corrupt one member in place (same length, so the archive stays well formed)
+            pos = data.find(b"\x7fELF")
+            end = len(data)
+            new_m, kind, must = corrupt_elf(rng, data[pos:end])
+            kind = "member-" + kind
+            must = False
+            new = data[:pos] + new_m[:end - pos].ljust(end - pos, b"\0") if len(new_m) >= 4 else data
+    else:
+        new, kind, must = corrupt_elf(rng, data)
+    files = list(base.files)
+    files[k] = (fname, new)
+    return Case("corrupt", base.prog, files, None, "error" if must else "any", kind)
